@@ -30,12 +30,15 @@ from aioslsk.utils import ticket_generator
 PROPERTY = 'C11'
 ME, PEER = 'me', 'pe'
 
-# virtual-time constants of the scenarios (seconds)
-GPA_DECOY, GPA_REPLY = 0.125, 0.25       # the server answers GetPeerAddress
-D_FAST, D_SLOW = 1.0, 8.0                # the peer's answer to our SYN (PEER_CONNECT_TIMEOUT is 10)
-I_FAST, I_SLOW = 2.0, 30.0               # what the indirect side does after ConnectToPeer (PEER_INDIRECT_CONNECT_TIMEOUT is 60)
-PINNED_CONNECT_TIMEOUT, PINNED_INDIRECT_TIMEOUT, PINNED_WRITE_TIMEOUT = 10.0, 60.0, 10.0
-T_END = 100.0
+# virtual-time constants of the scenarios (seconds), derived from the two time-outs the code under test uses, so that
+# "fast" / "slow" / "hangs until the time-out" keep their meaning when a time-out is retuned (prelude checks the order)
+CONNECT_TIMEOUT = float(PeerConnection.connect.__defaults__[0])          # PEER_CONNECT_TIMEOUT (10)
+INDIRECT_TIMEOUT = float(N.PEER_INDIRECT_CONNECT_TIMEOUT)                # 60
+GPA_DECOY, GPA_REPLY = 0.0125 * CONNECT_TIMEOUT, 0.025 * CONNECT_TIMEOUT  # the server answers GetPeerAddress (0.125, 0.25)
+D_FAST, D_SLOW = 0.1 * CONNECT_TIMEOUT, 0.8 * CONNECT_TIMEOUT            # the peer's answer to our SYN (1, 8)
+I_FAST, I_SLOW = 0.2 * CONNECT_TIMEOUT, 0.5 * INDIRECT_TIMEOUT           # what the other side does after ConnectToPeer (2, 30)
+PINNED_INDIRECT_TIMEOUT = INDIRECT_TIMEOUT
+T_END = 2 * (CONNECT_TIMEOUT + INDIRECT_TIMEOUT) + 40
 
 DIRECT = {
     # outcome of the TCP attempt, delay, what drain() of the PeerInit write does
@@ -61,8 +64,12 @@ INDIRECT = {
     'send_hangs': [],
     'stranger_then_pierce': [(I_FAST, 'ppf', 'sym'), (I_SLOW, 'ppf', 'ours')],
     'pierce_then_cannot': [(I_FAST, 'ppf', 'sym'), (I_SLOW, 'cc', 'ours')],
+    # the pierce-firewall connection shows up in the very instant of the indirect time-out: just before it is handled ...
     'pierce_at_timeout': [(PINNED_INDIRECT_TIMEOUT, 'ppf', 'ours')],
+    # ... and just after it (the waiter has been cancelled in this loop iteration, its done-callback has not run yet)
+    'pierce_after_timeout': [(PINNED_INDIRECT_TIMEOUT, 'ppf', 'ours')],
 }
+TIES = ('pierce_at_timeout', 'pierce_after_timeout')
 SERVER_FAULT = {'send_fails': 'error', 'send_hangs': 'hang'}
 
 
@@ -136,6 +143,8 @@ class Event:
         self.reader = self.writer = self.task = None
         self.fired_at = None
         self.key = None
+        self.waiting = None      # at the moment it arrives: is the request still waiting for a pierce-firewall connection?
+        self.after = None        # once the loop has gone idle in that instant: (indirect attempt over?, socket closed?)
 
 
 def h_connect(c, mode, direct, indirect, addr='given', typ='P', decoy=False, cancel=None, k_lo=0, k_hi=0, pin=False):
@@ -151,11 +160,12 @@ def _connect(c, loop, g, wr, tap, mode, direct, indirect, addr, typ, decoy, canc
     sig = [mode, direct, indirect]
     d_outcome, d_delay, d_drain = DIRECT[direct]
     script = INDIRECT[indirect]
-    tie_free = direct != 'tie' and indirect != 'pierce_at_timeout'
+    tie_free = direct != 'tie' and indirect not in TIES
 
     # ---- data ---------------------------------------------------------------------------------------------------------
     prefer = bool(c.fresh_bool('prefer_obfuscated')) if addr == 'server' else False
-    pos = g.word('ticket_generator_position', 32)      # makes the request's ticket an arbitrary 32-bit value
+    pos = g.word('ticket_generator_position', 32)      # makes the request's ticket an arbitrary value 1..2^32-1
+    c.assume(pos <= 2 ** 32 - 2)                       # (the wrap of the generator is C18's business)
 
     if addr == 'server':
         shape = c.pick(['full', 'short'], 'address_reply_shape')
@@ -179,8 +189,9 @@ def _connect(c, loop, g, wr, tap, mode, direct, indirect, addr, typ, decoy, canc
         events.append(ev)
     g.commit()
     if pin:
-        # cancellation scenarios: the data stays symbolic but is constrained to the case the scenario name says (usable
-        # port, every scripted notice carries our ticket); the data-dependent cases are the business of the other jobs
+        # cancellation scenarios: the data stays symbolic but is constrained to the case the scenario name says (usable port
+        # here, every scripted notice carries our ticket - assumed when it is sent); the data-dependent cases are the
+        # business of the other jobs
         if addr == 'given':
             c.assume(given['port'] >= 1)
 
@@ -261,6 +272,7 @@ def _connect(c, loop, g, wr, tap, mode, direct, indirect, addr, typ, decoy, canc
 
     def fire(ev):
         ev.fired_at = loop.time()
+        ev.waiting = not task.done() and any(not f.done() for f in net._expected_connection_futures.values())
         if pin:
             c.assume(matches_ours(ev))
         tk = wire_ticket() if ev.ticket is OURS else ev.ticket
@@ -292,7 +304,16 @@ def _connect(c, loop, g, wr, tap, mode, direct, indirect, addr, typ, decoy, canc
             if S['t_ctp'] is None:
                 S['t_ctp'] = loop.time()
                 for ev in events:
-                    loop.call_later(ev.offset, fire, ev)
+                    if indirect == 'pierce_after_timeout':
+                        # same virtual instant, but registered after the code under test has armed its own time-out
+                        hop = [8]
+
+                        def later(ev=ev):
+                            hop[0] -= 1
+                            loop.call_soon(later) if hop[0] else loop.call_later(ev.offset, fire, ev)
+                        loop.call_soon(later)
+                    else:
+                        loop.call_later(ev.offset, fire, ev)
         elif code == 1001:
             S['cc_sent'].append(data)
     world.server_writer.fault, world.server_writer.on_write = server_fault, server_got
@@ -347,16 +368,26 @@ def _connect(c, loop, g, wr, tap, mode, direct, indirect, addr, typ, decoy, canc
         c.note('cancel injected', st['steps'], st['idles'], loop.time(), st['phase'])
         return True
 
+    def survivors(returned):
+        """only for a CANCELLED request: connections that were completely initialised and announced to the application
+        (PeerInitializedEvent, requested=True) before the cancellation took effect and that are still open.  They are judged
+        under their own label (see docs/C11.md: the application may already be using them); everything else under the
+        ordinary ones."""
+        if st['cancelled_at'] is None:
+            return []
+        return [cn for cn, req in world.inits if req and cn is not returned and cn in net.peer_connections
+                and cn._writer is not None and not cn._writer.closed]
+
     def others_closed(returned):
         """every socket opened for this request except the returned connection's is closed, nothing else is registered"""
-        keep = getattr(returned, '_writer', None)
+        keep = [returned] + survivors(returned) if returned is not None else survivors(returned)
+        keep_w = [cn._writer for cn in keep]
         socks = [a.writer for a in wr.attempts[1:] if a.writer is not None] + [w for _, w, _ in world.accepted]
-        open_socks = [w for w in socks if not w.closed and w is not keep]
-        registered = list(net.peer_connections)
-        ok = not open_socks and registered == ([returned] if returned is not None else [])
+        open_socks = [w for w in socks if not w.closed and not any(w is k_ for k_ in keep_w)]
+        registered = [x for x in net.peer_connections if not any(x is k_ for k_ in keep)]
+        ok = not open_socks and not registered and (returned is None or net.peer_connections.count(returned) == 1)
         return ok, {'open_sockets': [w.role + str(w.info['peername'][1]) for w in open_socks],
-                    'registered': [repr(x.state.name) + '/' + repr(x.connection_state.name) for x in registered
-                                   if x is not returned]}
+                    'registered': [repr(x.state.name) + '/' + repr(x.connection_state.name) for x in registered]}
 
     def waiters():
         return len(net._expected_connection_futures), len(net._expected_response_futures)
@@ -366,7 +397,7 @@ def _connect(c, loop, g, wr, tap, mode, direct, indirect, addr, typ, decoy, canc
         for q, s, t in world.tasks[n_tasks0:]:
             if t is task or t.done():
                 continue
-            if q.endswith('_message_reader_loop') and s is returned:
+            if q.endswith('_message_reader_loop') and (s is returned or any(s is x for x in survivors(returned))):
                 continue
             out.append(q)
         return out
@@ -445,6 +476,11 @@ def _connect(c, loop, g, wr, tap, mode, direct, indirect, addr, typ, decoy, canc
         # ---- clause 2: nothing but the returned connection remains ------------------------------------------------
         ok, inf = others_closed(returned)
         r1 = c.check(ok, 'only_returned_connection_remains', sig=csig, info=inf)
+        if st['cancelled_at'] is not None:
+            sv = survivors(returned)
+            kinds = sorted({'direct' if any(a.writer is cn._writer for a in wr.attempts[1:]) else 'indirect' for cn in sv})
+            c.check(not sv, 'initialised_connection_outlives_cancelled_request', sig=[mode] + kinds,
+                    info={'cancelled_while': st['phase'], 'connections': len(sv)})
         r2 = c.check(waiters() == (0, 0), 'no_waiter_left', sig=csig, info={'ticket_waiters': waiters()[0], 'response_waiters': waiters()[1]})
         r3 = c.check(not running(returned), 'no_attempt_left_running', sig=csig, info=running(returned))
         return r1 and r2 and r3
@@ -478,6 +514,10 @@ def _connect(c, loop, g, wr, tap, mode, direct, indirect, addr, typ, decoy, canc
             c.reach('cancel_window_passed')
             return
         st['idles'] += 1
+        for ev in events:
+            if ev.fired_at is not None and ev.after is None:
+                ev.after = (task.done() or not any(not f.done() for f in net._expected_connection_futures.values()),
+                            ev.writer.closed if ev.writer is not None else None)
         if task.done() and not st['observed']:
             if cancel and st['cancelled_at'] is None:
                 c.reach('cancel_point_beyond_end')
@@ -507,7 +547,9 @@ def _connect(c, loop, g, wr, tap, mode, direct, indirect, addr, typ, decoy, canc
         # (when something was left behind at the return, what it turns into later is a consequence, not a new finding)
         c.check(st.get('late') is None, 'late_arrival_leaves_nothing', sig=csig, info=st.get('late'))
     died = world.dead_tasks(ignore=(task, 'Network._make_direct_connection', 'Network._make_indirect_connection'))
-    c.check(not died and not loop.errors and not tap.swallowed, 'no_task_died', sig=csig,
+    what = ([q + ':' + e.split('(')[0] for q, e in died] + [type(x.get('exception')).__name__ for x in loop.errors]
+            + [type(x).__name__ for x in tap.swallowed])[:1]
+    c.check(not died and not loop.errors and not tap.swallowed, 'no_task_died', sig=[mode] + what,
             info=repr((died[:2], loop.errors[:1], tap.swallowed[:1])))
 
     # ---- what went over the wire -----------------------------------------------------------------------------------
@@ -534,6 +576,16 @@ def _connect(c, loop, g, wr, tap, mode, direct, indirect, addr, typ, decoy, canc
         c.check(z_and(len(got) == len(ref), bytes_equal(got[:8], ref[:8]), bytes_equal(got[12:], ref[12:])),
                 'connect_to_peer_carries_name_and_type', sig=sig)
     c.check(not S['cc_sent'], 'no_cannot_connect_report_for_own_request', sig=sig)
+    # ---- notices that were not for us (the converse direction is part of returns_iff_a_path_works) --------------------
+    for ev in events:
+        if ev.ticket is OURS or not ev.waiting or ev.after is None or ev.after[0] or pin:
+            continue        # (only notices that arrived while we were waiting and after which we went on waiting)
+        if ev.kind == 'ppf' and ev.after[1]:
+            c.reach('foreign_pierce_firewall_turned_away')
+            c.check(z_not(matches_ours(ev)), 'pierce_firewall_turned_away_only_with_foreign_ticket', sig=sig)
+        elif ev.kind == 'cc':
+            c.reach('foreign_cannot_connect_ignored')
+            c.check(z_not(matches_ours(ev)), 'cannot_connect_ignored_only_with_foreign_ticket', sig=sig)
 
 
 # ----------------------------------------------------------------------------------------------------------------------
@@ -667,24 +719,104 @@ def h_select_port(c):
 
 META = {
     'level': 'other',
-    'technique': 'MIXED: symbolic execution of the real connect code on z3 proxies for the DATA (tickets, ports, addresses, names, '
-                 'keys; obligations are z3 validity queries per path) combined with ENUMERATION of the I/O outcome / timing class of '
-                 'each attempt, their relative order and the cancellation point on a deterministic virtual-time event loop',
-    'explanation': 'see docs/C11.md',
+    'technique': 'MIXED (stated honestly, see docs/C11.md): symbolic execution of the real connect code on z3 proxies for the DATA - '
+                 'tickets, peer address, ports, names, connection type on the wire, obfuscation keys flow through the real codec, the '
+                 'real waiter tables and select_port; every obligation is a z3 validity query over all their values on the path - '
+                 'combined with ENUMERATION, on a deterministic virtual-time loop, of how and when each I/O attempt ends, of the order '
+                 'of the two attempts and of the step at which the request is cancelled',
+    'explanation': 'Real Network (real constructor, Settings, EventBus) with real Server/Listening/PeerConnection objects over byte-accurate '
+                   'fake streams.  create_peer_connection runs in FALLBACK and RACE mode against a simulated server and peer that react '
+                   'to the bytes they receive: GetPeerAddress is answered with a symbolic address (optionally preceded by an answer for a '
+                   'symbolic other user), ConnectToPeer triggers a scripted sequence of PeerPierceFirewall connections / CannotConnect '
+                   'notices whose tickets are symbolic 32-bit values or an echo of the ticket the server was given.  A short reference '
+                   '(address valid & selected port usable & TCP/PeerInit outcome ok) OR (first scripted notice with our ticket is a pierce) '
+                   'decides whether a path works; z3 decides on every path that the request returned iff that holds, that the returned '
+                   'connection is one of the working paths, and byte-level facts about what the peer and the server saw.  At the '
+                   'return (after the callbacks scheduled for that instant) and after every later scripted arrival nothing but the '
+                   'returned connection may be registered / open, no ticket or CannotConnect waiter and no attempt task may be left.  '
+                   'The second harness feeds a fully symbolic ConnectToPeer request and checks the connect-back (selected port, '
+                   'PeerPierceFirewall echoing the ticket XOR CannotConnect(ticket, user) to the server).  The ordering / cancellation '
+                   'part of the verdict is bounded-exhaustive enumeration of schedules on the real code, not a solver result; all '
+                   'findings so far are in that part.',
     'functions': [Network.create_peer_connection, Network._create_peer_connection_fallback, Network._create_peer_connection_race,
                   Network._make_direct_connection, Network._get_peer_address, Network.select_port, Network._make_indirect_connection,
-                  Network._remove_connection_future, Network.create_server_response_future, Network.on_peer_accepted,
-                  Network._on_connect_to_peer, Network._handle_connect_to_peer, Network._handle_connect_to_peer_callback,
-                  Network._finalize_peer_connection, Network.on_message_received, Network.on_state_changed,
-                  Network.remove_peer_connection, N.ExpectedResponse.matches, DataConnection.connect, DataConnection.disconnect,
-                  DataConnection.send_message, DataConnection._send, DataConnection.receive_message_object,
-                  PeerConnection.set_connection_state, ListeningConnection.accept, ticket_generator],
+                  Network._remove_connection_future, Network._remove_response_future, Network.create_server_response_future,
+                  Network.on_peer_accepted, Network._on_connect_to_peer, Network._handle_connect_to_peer,
+                  Network._handle_connect_to_peer_callback, Network._finalize_peer_connection, Network.on_message_received,
+                  Network.on_state_changed, Network.remove_peer_connection, N.ExpectedResponse.matches, DataConnection.connect,
+                  DataConnection.disconnect, DataConnection.send_message, DataConnection._send, DataConnection.receive_message_object,
+                  DataConnection._read, DataConnection._read_message, PeerConnection.set_connection_state, ListeningConnection.accept,
+                  ticket_generator],
     'stubs': c11env.STUBS + codec.STUBS + [
-        'aioslsk.network.connection.adapter (module-level logger adapter) -> recorder of swallowed exceptions (otherwise inert, like '
-        'disabled logging)',
-        'Network._ticket_generator -> a fresh instance of the real aioslsk.utils.ticket_generator started at a symbolic position'],
-    'data_variables': [], 'discriminants': [], 'bounds': {}, 'outside': [], 'assumptions': [],
+        'aioslsk.network.connection.adapter (module-level logger adapter) -> recorder of the exceptions the code logs and swallows '
+        '(otherwise inert, like disabled logging)',
+        'Network._ticket_generator -> a fresh instance of the real aioslsk.utils.ticket_generator started at a symbolic position '
+        '(so that the request ticket is an arbitrary value 1..2^32-1)',
+        'simulated server / peer (harness): answers GetPeerAddress after 0.25 s, reacts to ConnectToPeer with the scripted notices; frames '
+        'are built by reference encoders from spec/wire_layout.json, never by aioslsk classes'],
+    'data_variables': [
+        'request ticket (ticket generator position, 32 bit)', 'ticket of every scripted PeerPierceFirewall / CannotConnect notice (32 bit)',
+        'GetPeerAddress answer: ip (4 octets), clear port (uint32), obfuscated port amount, obfuscated port (uint16); user name of the '
+        'preceding foreign answer (2 UTF-8 bytes) and its address', 'caller-supplied ip / port (16 bit)', 'obfuscation keys (4 bytes per frame)',
+        'ConnectToPeer request from the server: user name (2 bytes), type (1 byte), ip, port, ticket, privileged, obfuscated port amount / port',
+        'select_port: both ports (32 bit)'],
+    'discriminants': [
+        'connect mode (fallback / race)', 'direct attempt: connected fast / slowly / in the instant of the indirect event / refused fast / slowly / '
+        'no answer until the time-out / PeerInit write error / PeerInit write hangs', 'indirect attempt: pierce fast / slowly, CannotConnect '
+        'fast (then pierce) / slowly, silence, ConnectToPeer write error / hangs, stranger then pierce, pierce then CannotConnect, pierce in '
+        'the instant of the time-out (before / after its handling)', 'listening port (clear / obfuscated) of every incoming connection',
+        'connection type P / F / D', 'address given by the caller or fetched from the server; answer with or without the optional '
+        'obfuscated-port fields; with or without a preceding foreign answer', 'obfuscation preference and caller obfuscate flag (booleans)',
+        'cancellation: none / at each idle instant / before each loop step (one fork per step)',
+        'connect-back: TCP ok fast / slowly / refused / hangs / pierce write error / hangs'],
+    'bounds': {
+        'quick': {'direct outcomes': 5, 'indirect outcomes': 6, 'both modes': True, 'caller-given address grid': 'all 60 pairs, type rotating',
+                  'server-address grid': '3 x 4 pairs x 2 modes, foreign answer alternating', 'cancellation': 'every idle instant on all 60 pairs; '
+                  'every loop step on 3 x 2 pairs x 2 modes (<= 48 steps; the longest scenario has 26)',
+                  'text leaves': 'user names 2 bytes, type 1 byte', 'virtual horizon': '180 s'},
+        'thorough': {'direct outcomes': 8, 'indirect outcomes': 11, 'both modes': True, 'caller-given address grid': 'all pairs x 3 types',
+                     'server-address grid': 'all pairs x {with, without foreign answer}', 'cancellation': 'every idle instant on all pairs; every '
+                     'loop step on all pairs x {given, server address}', 'text leaves': 'user names 2 bytes, type 1 byte', 'virtual horizon': '180 s'}},
+    'outside': [
+        'relative timing other than the enumerated classes (delays are fixed representatives: 1 / 8 s direct, 2 / 30 s indirect, derived from the '
+        'code\'s two time-outs); more than two scripted notices per request; several concurrent requests (ticket collisions between requests)',
+        'a GetPeerAddress answer that never comes while the server connection stays up (not in the property\'s fault list); write errors on '
+        'GetPeerAddress itself', 'CannotConnect and pierce-firewall for our ticket handled in the same loop iteration (`done.pop()` on a two-element '
+        'set: outcome depends on object addresses - observed by reading, not enumerable deterministically)',
+        'listeners of PeerInitializedEvent that suspend (cancellation inside the event emission)', 'second cancellation during clean-up',
+        'real sockets / OS behaviour (half-open connections, RST timing); the fake transport delivers EOF to the reader on close',
+        'ip overrides (debug setting) other than the empty table', 'get_peer_connection / send_peer_messages (connection re-use)',
+        'what the ticket in PeerInit is (free by protocol)', 'the ordering clause is decided by enumeration, see technique'],
+    'assumptions': ['asyncio Task / Future / wait / gather semantics of CPython 3.12', 'async_timeout == asyncio.timeout semantics',
+                    'a peer / the server echo the ticket of the ConnectToPeer request they were given (that value, read back from the bytes on '
+                    'the wire, is what "our ticket" means in the reference)',
+                    'observation point of "when it returns or raises": after the callbacks already scheduled for that virtual instant have run '
+                    '(done-callbacks that unregister cancelled waiters run one loop iteration later by construction of asyncio)'],
 }
+
+QD = ['fast', 'slow', 'refused', 'hang', 'init_fail']
+QI = ['pierce_fast', 'pierce_slow', 'cannot_fast', 'cannot_slow', 'silence', 'send_fails']
+PIERCING = ('pierce_fast', 'pierce_slow', 'cannot_fast', 'stranger_then_pierce', 'pierce_then_cannot')
+
+
+def _requires(mode, d, i, addr):
+    """vacuity guard: what this scenario must have exercised"""
+    req = ['request_started', 'scenario_end', 'direct_attempted']
+    hangs = (mode, i, addr) == ('race', 'send_fails', 'server')      # (unrepaired tree: the request never ends there)
+    if not hangs:
+        req.append('request_ended')
+    if d in DIRECT_OK and not hangs:
+        req += ['returned_direct', 'peer_init_sent']
+    if i in PIERCING and (d not in DIRECT_OK or addr == 'given' or mode == 'race'):
+        req += ['returned_indirect', 'connect_to_peer_sent'] if (d not in DIRECT_OK or (mode == 'race' and d == 'slow' and i in (
+            'pierce_fast', 'stranger_then_pierce', 'pierce_then_cannot'))) else []
+    if d not in DIRECT_OK and (i not in PIERCING or i in ('pierce_fast', 'pierce_slow', 'cannot_fast', 'pierce_then_cannot')) and not hangs:
+        req.append('request_raised')
+    if i in ('pierce_fast', 'pierce_slow', 'stranger_then_pierce', 'pierce_then_cannot') and d not in DIRECT_OK:
+        req.append('foreign_pierce_firewall_turned_away')
+    if i in ('cannot_fast',) and d not in DIRECT_OK:
+        req.append('foreign_cannot_connect_ignored')
+    return req
 
 
 def jobs(tier):
@@ -696,20 +828,23 @@ def jobs(tier):
     job('select_port', h_select_port, ['selected'])
     for o in BACK:
         for shape in ('full', 'short'):
-            job('connect_back', h_connect_back, ['connect_back_end', 'pierced' if o in ('ok', 'ok_slow') else 'reported'], outcome=o, shape=shape)
-    directs = ['fast', 'slow', 'refused', 'hang', 'init_fail'] + ([] if q else ['tie', 'refused_slow', 'init_hang'])
-    indirects = ['pierce_fast', 'pierce_slow', 'cannot_fast', 'cannot_slow', 'silence', 'send_fails'] + (
-        [] if q else ['send_hangs', 'stranger_then_pierce', 'pierce_then_cannot', 'pierce_at_timeout'])
+            job('connect_back', h_connect_back, ['connect_back_end', 'reported'] + (['pierced'] if o in ('ok', 'ok_slow') else []),
+                outcome=o, shape=shape)
+    directs = QD + ([] if q else ['tie', 'refused_slow', 'init_hang'])
+    indirects = QI + ([] if q else ['send_hangs', 'stranger_then_pierce', 'pierce_then_cannot', 'pierce_at_timeout', 'pierce_after_timeout'])
     typs = ['P', 'F', 'D']
-    req = ['request_started', 'scenario_end', 'request_ended']
     n = 0
     # (1) every outcome pair in both modes, address given by the caller (symbolic ip / port / obfuscate flag)
     for mode in ('fallback', 'race'):
         for d in directs:
             for i in indirects:
                 for typ in ([typs[n % 3]] if q else typs):
-                    job('connect', h_connect, req, mode=mode, direct=d, indirect=i, addr='given', typ=typ)
+                    job('connect', h_connect, _requires(mode, d, i, 'given'), mode=mode, direct=d, indirect=i, addr='given', typ=typ)
                 n += 1
+    if q:
+        for mode in ('fallback', 'race'):
+            job('connect', h_connect, _requires(mode, 'refused', 'pierce_after_timeout', 'given'), mode=mode, direct='refused',
+                indirect='pierce_after_timeout', addr='given', typ='P')
     # (2) address from the server (symbolic GetPeerAddress answer, optionally preceded by an answer for a symbolic other user)
     sd = ['fast', 'refused', 'hang'] if q else directs
     si = ['pierce_fast', 'cannot_fast', 'silence', 'send_fails'] if q else indirects
@@ -717,7 +852,8 @@ def jobs(tier):
         for d in sd:
             for i in si:
                 for decoy in ([bool(n % 2)] if q else [False, True]):
-                    job('connect', h_connect, req[:2] if (mode, i) == ('race', 'send_fails') else req, mode=mode, direct=d, indirect=i, addr='server', typ=typs[n % 3], decoy=decoy)
+                    job('connect', h_connect, [r for r in _requires(mode, d, i, 'server') if r != 'direct_attempted' or i != 'send_fails' or mode != 'race'],
+                        mode=mode, direct=d, indirect=i, addr='server', typ=typs[n % 3], decoy=decoy)
                 n += 1
     # (3) cancellation of the request: at every instant at which the loop goes idle ...
     creq = ['request_started', 'cancel_injected', 'scenario_end']
@@ -728,7 +864,7 @@ def jobs(tier):
                     pin=True)
                 n += 1
     # ... and before every single loop step
-    cd = ['fast', 'hang', 'init_hang'] if q else directs + ['init_hang'] * ('init_hang' not in directs)
+    cd = ['fast', 'hang', 'init_hang'] if q else directs
     ci = ['pierce_fast', 'silence'] if q else indirects
     for mode in ('fallback', 'race'):
         for d in cd:
@@ -738,3 +874,74 @@ def jobs(tier):
                         k_hi=48, pin=True)
                 n += 1
     return out
+
+
+def prelude(tier):
+    notes = list(codec.validate(deep=False) or [])
+    # ---- scenario times keep their meaning -------------------------------------------------------------------------------
+    order = [0, GPA_DECOY, GPA_REPLY, GPA_REPLY + D_FAST, I_FAST, D_SLOW, GPA_REPLY + D_SLOW, CONNECT_TIMEOUT, CONNECT_TIMEOUT + GPA_REPLY + 10,
+             I_SLOW, INDIRECT_TIMEOUT, T_END]
+    if any(a >= b for a, b in zip(order, order[1:])):
+        raise symex.HarnessError(f'scenario times are not ordered any more (time-outs of the code changed?): {order}')
+    notes.append(f'scenario times derived from PEER_CONNECT_TIMEOUT={CONNECT_TIMEOUT} / PEER_INDIRECT_CONNECT_TIMEOUT={INDIRECT_TIMEOUT}: '
+                 f'address {GPA_REPLY}, direct {D_FAST}/{D_SLOW}, indirect {I_FAST}/{I_SLOW}')
+    # ---- reference encoders == the real codec on concrete values ---------------------------------------------------------------
+    import aioslsk.protocol.messages as M
+    cases = [
+        ('PeerInit.Request', dict(username='me', typ='P', ticket=0xDEADBEEF)),
+        ('PeerPierceFirewall.Request', dict(ticket=4294967295)),
+        ('ConnectToPeer.Request', dict(ticket=77, username='pé', typ='F')),
+        ('ConnectToPeer.Response', dict(username='ab', typ='D', ip='1.2.3.4', port=2234, ticket=5, privileged=True)),
+        ('ConnectToPeer.Response', dict(username='ab', typ='P', ip='10.0.0.255', port=0, ticket=0, privileged=False, obfuscated_port_amount=1,
+                                        obfuscated_port=2235)),
+        ('CannotConnect.Request', dict(ticket=12345, username='xy')),
+        ('CannotConnect.Response', dict(ticket=1)),
+        ('GetPeerAddress.Request', dict(username='pe')),
+        ('GetPeerAddress.Response', dict(username='pe', ip='0.0.0.0', port=0)),
+        ('GetPeerAddress.Response', dict(username='pe', ip='192.168.1.7', port=65536, obfuscated_port_amount=1, obfuscated_port=65535)),
+    ]
+    for name, kw in cases:
+        a, b = name.split('.')
+        real = getattr(getattr(M, a), b)(**kw).serialize()
+        if bytes(ref_frame(name, **kw)) != real:
+            raise symex.HarnessError(f'reference encoder disagrees with the real codec on {name} {kw}')
+    notes.append(f'reference encoders == real serialize() on {len(cases)} concrete messages')
+    # ---- SymMap == dict on concrete keys ---------------------------------------------------------------------------------------
+    import random
+    rnd = random.Random(11)
+    d, m = {}, SymMap()
+    for _ in range(400):
+        k, op = rnd.randrange(6), rnd.randrange(7)
+        if op == 0:
+            d[k] = m[k] = rnd.random()
+        elif op == 1:
+            ra = d.pop(k, None), m.pop(k, None)
+            if ra[0] != ra[1]:
+                raise symex.HarnessError('SymMap.pop')
+        elif op == 2 and (d.get(k) != m.get(k) or (k in d) != (k in m)):
+            raise symex.HarnessError('SymMap.get/contains')
+        elif op == 3:
+            try:
+                x = d[k]
+            except KeyError:
+                x = KeyError
+            try:
+                y = m[k]
+            except KeyError:
+                y = KeyError
+            if x != y:
+                raise symex.HarnessError('SymMap.getitem')
+        elif op == 4 and k in d:
+            del d[k]
+            del m[k]
+        if list(d) != list(m) or len(d) != len(m) or list(d.items()) != m.items() or bool(d) != bool(m) or list(d.values()) != m.values():
+            raise symex.HarnessError('SymMap order/len')
+    notes.append('SymMap == dict on 400 random concrete operations (insertion order, pop, get, del, contains, len)')
+    # ---- reference keystream == real obfuscation ----------------------------------------------------------------------------------
+    import aioslsk.protocol.obfuscation as O
+    for plain in (b'', b'\x05\x00\x00\x00\x00\x01\x02\x03\x04', bytes(range(40))):
+        enc = O.encode(plain)
+        if bytes(ref_plain(list(enc), True)) != plain or bytes(ref_obfuscate(list(plain), list(enc[:4]))) != enc:
+            raise symex.HarnessError('reference keystream disagrees with aioslsk.protocol.obfuscation')
+    notes.append('reference keystream == obfuscation.encode/decode on 3 cases')
+    return notes
